@@ -144,7 +144,11 @@ func runC13(c *Ctx) {
 	c.floor("C13.1", "WirePattern implementers", len(wires), 9)
 	c.floor("C13.1", "KessokuPattern implementers", len(kess), 6)
 	tr, ok1 := typeSwitchCases(L, migPkg, "Transformer", "Transform")
-	te, ok2 := typeSwitchCases(L, migPkg, "Transformer", "transformElements")
+	teName := "transformElements"
+	if fn := resolveRole(c, migPkg, "(*Transformer).transformElements"); fn != nil {
+		teName = fn.Name()
+	}
+	te, ok2 := typeSwitchCases(L, migPkg, "Transformer", teName)
 	if !ok1 || !ok2 {
 		c.undecided("C13.1", "Transform/transformElements", "type switches not found")
 	} else {
@@ -167,7 +171,7 @@ func runC13(c *Ctx) {
 		}
 		// element kinds the transformer can produce are expression cases
 		for _, fn := range migFuncs(L) {
-			if fn.Name() != "transformElements" {
+			if fn != resolveRole(c, migPkg, "(*Transformer).transformElements") {
 				continue
 			}
 			for _, a := range appendsIn(L, fn) {
@@ -204,7 +208,7 @@ func runC13(c *Ctx) {
 			case strings.Contains(t, "go/ast.FuncLit") || strings.Contains(t, "buildStructConstructor(") || strings.Contains(t, "buildFieldAccessor("):
 				c.ok("C13.2", fnName(fn)+": provider is a function literal synthesised from the struct type", t)
 			default:
-				c.fail("C13.2", fnName(fn)+":synthesised-provider", L.pos(st.Pos()),
+				c.fail("C13.2", "KessokuProvide.FuncExpr:identifier-synthesised-from-string", L.pos(st.Pos()),
 					"the provider of a kessoku.Provide is an identifier synthesised from a string instead of the provider the wire set contains: wire uses whichever provider in the set returns the bound type, the migrator looks up \"New\"+TypeName by name", t)
 			}
 		}
@@ -212,7 +216,7 @@ func runC13(c *Ctx) {
 	c.floor("C13.2", "stores to KessokuProvide.FuncExpr", nProv, 4)
 
 	// ---- C13.3 the by-name lookup is confined to the implementation's package
-	if tb := L.fn(migPkg, "(*Transformer).transformBind"); tb != nil {
+	if tb := resolveRole(c, migPkg, "(*Transformer).transformBind"); tb != nil {
 		c.seen(fnName(tb))
 		n := 0
 		for _, cs := range callsIn(tb) {
@@ -332,7 +336,7 @@ func runC14(c *Ctx) {
 			}
 		}
 	}
-	if mf := L.fn(migPkg, "(*Migrator).MigrateFiles"); mf != nil {
+	if mf := resolveRole(c, migPkg, "(*Migrator).MigrateFiles"); mf != nil {
 		c.seen(fnName(mf))
 		var write *ssa.Call
 		for _, cs := range callsIn(mf) {
@@ -382,7 +386,7 @@ func runC14(c *Ctx) {
 		c.undecided("C14.1", "MigrateFiles", "not found")
 	}
 	// load errors are checked for every package before patterns are extracted
-	if mf := L.fn(migPkg, "(*Migrator).MigrateFiles"); mf != nil {
+	if mf := resolveRole(c, migPkg, "(*Migrator).MigrateFiles"); mf != nil {
 		okLoad := false
 		for _, cs := range callsIn(mf) {
 			if cs.callee == "golang.org/x/tools/go/packages.Load" && cs.value() != nil {
@@ -457,7 +461,7 @@ func runC14(c *Ctx) {
 	c.floor("C14.5", "uses of lastPathElement", nLast, 2)
 
 	// ---- C14.6 set names and packages
-	if mr := L.fn(migPkg, "(*Migrator).mergeResults"); mr != nil {
+	if mr := resolveRole(c, migPkg, "(*Migrator).mergeResults"); mr != nil {
 		c.seen(fnName(mr))
 		okDup := false
 		for _, b := range mr.Blocks {
@@ -520,7 +524,7 @@ func runC14(c *Ctx) {
 
 func c14ClassifyLoop(c *Ctx, fn *ssa.Function, ml mapLoop) {
 	// same classification as C11.1, reported under C14.3
-	sub := &Ctx{Prop: c.Prop, Tier: c.Tier, L: c.L, FuncsSeen: c.FuncsSeen, Extra: c.Extra}
+	sub := &Ctx{Prop: c.Prop, Tier: c.Tier, L: c.L, FuncsSeen: c.FuncsSeen, Extra: c.Extra, RoleNames: c.RoleNames}
 	c11ClassifyLoop(sub, fn, ml)
 	for _, o := range sub.Obls {
 		o.Rule = strings.Replace(o.Rule, "C11.1", "C14.3", 1)
@@ -537,7 +541,7 @@ func c14ClassifyLoop(c *Ctx, fn *ssa.Function, ml mapLoop) {
 func c14ImportsException(c *Ctx, fn *ssa.Function, ml mapLoop) {
 	L := c.L
 	// premise 1: buildImportDecl sorts by path before building specs
-	bid := L.fn(migPkg, "(*Writer).buildImportDecl")
+	bid := resolveRole(c, migPkg, "(*Writer).buildImportDecl")
 	ok1 := false
 	if bid != nil {
 		c.seen(fnName(bid))
@@ -587,7 +591,7 @@ func c14ImportsException(c *Ctx, fn *ssa.Function, ml mapLoop) {
 					switch x := r.(type) {
 					case *ssa.Call:
 						cal := x.Common().StaticCallee()
-						if calleeOf(x.Common()) != "builtin len" && (cal == nil || cal.Name() != "buildImportDecl") {
+						if calleeOf(x.Common()) != "builtin len" && (cal == nil || cal != bid) {
 							ok3 = false
 						}
 					default:
@@ -605,7 +609,7 @@ func c14ImportsException(c *Ctx, fn *ssa.Function, ml mapLoop) {
 // c14AddImport: returned => recorded; new names are found unused first.
 func c14AddImport(c *Ctx) {
 	L := c.L
-	fn := L.fn(migPkg, "(*TypeConverter).AddImport")
+	fn := resolveRole(c, migPkg, "(*TypeConverter).AddImport")
 	if fn == nil {
 		c.undecided("C14.4", "AddImport", "not found")
 		return
